@@ -76,6 +76,13 @@ var stepGen = rapid.Custom(func(t *rapid.T) Step {
 		} else {
 			line = strings.Join(rapid.SliceOfN(rapid.SampledFrom(units), 1, 8).Draw(t, "verb"), "")
 		}
+		ascii := true
+		for i := 0; i < len(line); i++ {
+			ascii = ascii && line[i] < 0x80
+		}
+		if ascii {
+			line = "ı" + line // never a real verb: this step is judged as an unknown command
+		}
 		if rapid.IntRange(0, 2).Draw(t, "witharg") > 0 {
 			line += " " + rapid.SampledFrom([]string{"x", "x", "ı", "FROM:<s@a.test>", "TO:<r1@a.test>", "ııı", ""}).Draw(t, "arg")
 		}
@@ -118,7 +125,14 @@ var segGen = rapid.Custom(func(t *rapid.T) []Step {
 		out = append(out, Step{Kind: "helo", Line: rapid.SampledFrom([]string{"HELO c.test", "EHLO c.test"}).Draw(t, "g")})
 	}
 	maybe()
-	out = append(out, Step{Kind: "mail", Line: "MAIL FROM:<s@a.test>"})
+	if rapid.IntRange(0, 7).Draw(t, "refusedmail") == 0 {
+		// a client that pipelines: its MAIL is refused (syntax, size, sender policy), and the rest of
+		// the transaction follows as if it had not been
+		out = append(out, Step{Kind: "badmail", Line: "MAIL " + rapid.SampledFrom([]string{"FROM:s@a.test", "TO:<s@a.test>", "FROM:<s@a.test> SIZE=x", "FROM:<s@a.test> SIZE=99999999999",
+			"FROM:<s@origin-rejected.test>", "FROM:<s@origin-rejected.test>", "FROM:<s@a..test>"}).Draw(t, "refused")})
+	} else {
+		out = append(out, Step{Kind: "mail", Line: "MAIL FROM:<s@a.test>"})
+	}
 	n := rapid.IntRange(1, 3).Draw(t, "nr")
 	for i := 0; i < n; i++ {
 		maybe()
